@@ -523,7 +523,22 @@ fn generate(rng: &mut Rng, max_body: usize) -> Generated {
     const PATHC: &[u8] = b"abcdefghijklmnopqrstuvwxyzABCDEFGHIJKLMNOPQRSTUVWXYZ0123456789-._~:@=;,+!$&'()*";
     let method = *rng.pick(&["GET", "POST", "PUT", "DELETE", "OPTIONS"]);
     let mut target: Vec<u8> = vec![];
-    for _ in 0..rng.range(1, 5) {
+    // one target in six is plain ASCII (so that it is within the property's grammar and its path / query gate) and carries a
+    // URL, scheme and all, inside its path or its query: origin-form all the same (RFC 7230 5.3.1).  Added after a seeded
+    // absolute-form detection by "://" anywhere in the target was missed (round 8).
+    let embed = rng.chance(1, 6);
+    if embed {
+        let scheme = *rng.pick(&["http://", "https://", "ws://", "x://"]);
+        let inner = format!("{}{}{}", scheme, rng.pick(&["example.com", "127.0.0.1:8080", "h"]), rng.pick(&["", "/", "/cb", "/page/x.html"]));
+        let t = match rng.below(4) {
+            0 => format!("/login?next={}", inner),
+            1 => format!("/web/2020/{}?x=1", inner),
+            2 => format!("/fetch/{}", inner),
+            _ => format!("/a?u={}&v={}", inner, inner),
+        };
+        target.extend(t.as_bytes());
+    }
+    for _ in 0..(if embed { 0 } else { rng.range(1, 5) }) {
         target.push(b'/');
         for _ in 0..rng.range(0, 12) {
             match rng.below(12) {
@@ -533,8 +548,8 @@ fn generate(rng: &mut Rng, max_body: usize) -> Generated {
             }
         }
     }
-    if rng.chance(1, 8) { target.extend(uni_any(rng).as_bytes()); }          // a Unicode class as the last thing in the path
-    if rng.chance(1, 2) {
+    if !embed && rng.chance(1, 8) { target.extend(uni_any(rng).as_bytes()); }          // a Unicode class as the last thing in the path
+    if !embed && rng.chance(1, 2) {
         target.push(b'?');
         for _ in 0..rng.range(0, 24) {
             match rng.below(10) {
